@@ -104,11 +104,15 @@ func (g *Generate) Parse() error {
 				// in the AST.as a _typed_ variable.
 				xprStr := types.ExprString(v.astLine.Values[j])
 				tDesc := traits[j-1]
-				tDesc.Traits = append(tDesc.Traits, TraitInstance{
+				instance := TraitInstance{
 					OwningValue:  v,
 					variableName: v.astLine.Names[j].Name,
 					value:        xprStr,
-				})
+				}
+				if tv, ok := pkg.TypesInfo.Types[v.astLine.Values[j]]; ok && tv.Value != nil {
+					instance.keyType, instance.keyValue = tv.Type, tv.Value.ExactString()
+				}
+				tDesc.Traits = append(tDesc.Traits, instance)
 				sort.Sort(tDesc.Traits)
 				traits[j-1] = tDesc
 			}
@@ -141,8 +145,9 @@ func (g *Generate) Parse() error {
 // This will throw an error because "val" matches E1 and E2.
 func validateParsableTraits(enumType string, traits TraitDescs) error {
 	parsableTraitResults := make(map[string]string)
-	// the types under which a value is already a key of its enum value in the Parse switch.
-	parsableTraitTypes := make(map[string][]types.Type)
+	// enum value and constant value -> the types under which that constant already is a key of
+	// the enum value's case in the Parse switch.
+	parseKeys := make(map[string][]types.Type)
 	for _, trait := range traits {
 		if trait.Parsable {
 			for i, instance := range trait.Traits {
@@ -153,17 +158,21 @@ func validateParsableTraits(enumType string, traits TraitDescs) error {
 								"found in %s and %s. parsableByTrait values must be unique within the enum.",
 							enumType, trait.Name, instance.value, parseTo, instance.OwningValue.Name)
 					}
-					// the same constant on the same enum value through another parsable trait of the
-					// same type: it is already a key of that value in the Parse switch. A constant of
-					// another type (e.g. Tint(0) next to 0) is a different key and stays.
-					for _, seen := range parsableTraitTypes[instance.value] {
-						if types.Identical(types.Default(seen), types.Default(trait.Type)) {
-							trait.Traits[i].repeatsParseKey = true
-						}
-					}
 				}
 				parsableTraitResults[instance.value] = instance.OwningValue.Name
-				parsableTraitTypes[instance.value] = append(parsableTraitTypes[instance.value], trait.Type)
+				if instance.keyType == nil {
+					continue
+				}
+				// a key of the Parse switch is the constant as it is written: two parsable traits of
+				// one enum value repeat a key when their constants are equal AND of the same type
+				// (1 next to 1); equal constants of different types (Tint(0) next to 0) are two keys.
+				key := instance.OwningValue.Name + "\x00" + instance.keyValue
+				for _, seen := range parseKeys[key] {
+					if types.Identical(types.Default(seen), types.Default(instance.keyType)) {
+						trait.Traits[i].repeatsParseKey = true
+					}
+				}
+				parseKeys[key] = append(parseKeys[key], instance.keyType)
 			}
 
 		}
@@ -211,6 +220,8 @@ func (g *Generate) extractTraitDescs(tName string, pkgScope *types.Scope, values
 					OwningValue:  firstV,
 					variableName: name,
 					value:        v.Val().ExactString(),
+					keyType:      v.Type(),
+					keyValue:     v.Val().ExactString(),
 				},
 			},
 		}
